@@ -401,7 +401,7 @@ PROPS = {
     "C04": dict(mc=[ECON_MC], sim=[ECON_SIM], static=["econ*.ndjson"],
                 watch=["C04:", "conf:pool", "conf:bat", "conf:st", "conf:cnt"],
                 need={"Send/ok": 5, "Cancel/ok": 1, "ReqBatch/ok": 1, "End/ok": 3}),
-    "C10": dict(mc=[ECON_MC], sim=[ECON_SIM], static=["econ*.ndjson"],
+    "C10": dict(mc=[ECON_MC], sim=[ECON_SIM], static=["econ*.ndjson"], bulk=["bulk_batch*.ndjson"],
                 watch=["C10:", "conf:bat", "conf:cnt"],
                 need={"Send/ok": 5, "ReqBatch/ok": 1, "Begin/ok": 3}),
     "C12": dict(mc=[ECON_MC], sim=[ECON_SIM], static=["econ*.ndjson"],
@@ -498,6 +498,26 @@ def hub_run(prop, plan, tier, seed, replay_file, workdir):
     tmod, tcfg = plan.get("trace", ("Trace.tla", "Trace.cfg"))
     rep = validate(trace, workdir, dev, module=tmod, cfgname=tcfg)
     log("[%s] replayed %d behaviours on the real application (%.0fs); TLC validated %d trace lines (%.0fs)" % (prop, len(scripts), rt, rep["lines"], rep["wall"]))
+
+    # bulk scenarios (pools of hundreds of entries) are judged on a summary of every step (TraceBulk.tla)
+    if plan.get("bulk") and not replay_file:
+        bs = load_static(plan["bulk"])
+        bsp = os.path.join(workdir, "bulk.scripts.ndjson")
+        with open(bsp, "w") as f:
+            for sc in bs:
+                f.write(json.dumps(sc) + "\n")
+        btp = os.path.join(workdir, "bulk.trace.ndjson")
+        p, brt = run([vh, "run", "-scripts", bsp, "-out", btp, "-nopost"], 3000)
+        if p.returncode != 0:
+            sys.stdout.write(p.stdout.decode(errors="replace")[-2000:])
+            raise Infra("harness run (bulk) failed")
+        brep = validate(btp, workdir, dev, name="bulk", module="TraceBulk.tla", cfgname="TraceBulk.cfg")
+        bst = brep["stat"]
+        log("[%s] %d bulk scenarios: %d batches created, %d of them full (100 transfers), largest pool %d entries" % (prop, len(bs), bst["batches"], bst["full"], bst["biggestpool"]))
+        if (bst["full"] < 1 or bst["biggestpool"] < 101) and not brep["viol"]:
+            raise Infra("vacuous bulk run: no full batch / no pool above the batch size")
+        rep["viol"] = list(rep["viol"]) + list(brep["viol"])
+        scripts = scripts + bs
 
     # anti-vacuity
     cov = rep["cov"]
@@ -782,7 +802,7 @@ def check_c06(prop, tier, seed, replay_file=None):
             s, st = simulate_scripts(sp, workdir, tier, dev, seed)
             log("[%s] simulation %s: %d behaviours" % (prop, spec["cfg"], len(s)))
             scripts += s
-        scripts += load_static(["econ*.ndjson", "fees*.ndjson", "valset*.ndjson"])
+        scripts += load_static(["econ*.ndjson", "fees*.ndjson", "valset*.ndjson", "attest*.ndjson", "gov*.ndjson"])
     sp = os.path.join(workdir, "scripts.ndjson")
     with open(sp, "w") as f:
         for sc in scripts:
